@@ -253,7 +253,7 @@ fn graph_of(bytes: &[u8]) -> anyhow::Result<String> {
         exs.push(format!("{n} {}", d.ent(&e)));
     }
     let ifn: Vec<String> = d.names.iter().filter(|n| {
-        matches!(wasmparser::names::ComponentName::new(n, 0).map(|c| matches!(c.kind(), wasmparser::names::ComponentNameKind::Interface(_))), Ok(true))
+        matches!(wasmparser::names::ComponentName::new_with_features(n, 0, WasmFeatures::all()).map(|c| matches!(c.kind(), wasmparser::names::ComponentNameKind::Interface(_))), Ok(true))
     }).map(|n| esc_name(n)).collect();
     let mut o = format!("G {}", d.nodes.len());
     for n in &d.nodes { o.push_str(" ; "); o.push_str(n); }
